@@ -8,7 +8,7 @@ from props import common
 ID = "C12"
 LEVEL = "exploration"
 SIDECARS = ["contracts.flow", "contracts.traces"]
-TARGETS = ["FlowGraph.__build_loop_nest", "Collector.set_collecting", "Collector.__get_trace"]
+TARGETS = ["FlowGraph.__build_loop_nest", "Collector.set_collecting", "Collector.__get_trace", "SBlock.__init__", "SBlock.add"]
 TECHNIQUE = ("contracts on FlowGraph.__build_loop_nest (metrics nodes bracket the loop chain) and on the two spellings of a trace "
              "name - Collector.set_collecting (registration) and Collector.__get_trace (consumption) against one label "
              "specification (SMT) + structural lemmas on "
